@@ -222,6 +222,14 @@ func c06KwArg(v ssa.Value, depth int, seen map[ssa.Value]bool) kwClass {
 		return kwClass{false, "result of " + name + "()"}
 	case *ssa.Parameter:
 		return kwClass{false, "parameter " + x.Name() + " (callers not followed)"}
+	case *ssa.Extract:
+		if lk, ok := x.Tuple.(*ssa.Lookup); ok && x.Index == 0 && constStringTable(lk.X) {
+			return kwClass{true, ""}
+		}
+	case *ssa.Lookup:
+		if constStringTable(x.X) {
+			return kwClass{true, ""}
+		}
 	}
 	return kwClass{false, "value of unknown origin (" + v.String() + ")"}
 }
@@ -559,4 +567,46 @@ func c06OptionIndependence(c *Ctx, p *core.Prog, astPath string) {
 	}
 	r.OK("option-independence", "scan", "-", sprintf("%d option-dependent branches in Format code examined", n))
 	r.Floor("option-independence", n, 5, "option-dependent branches")
+}
+
+// constStringTable: m is a package-level map whose values are all string constants (a keyword lookup table).
+func constStringTable(m ssa.Value) bool {
+	u, ok := m.(*ssa.UnOp)
+	if !ok {
+		return false
+	}
+	g, ok := u.X.(*ssa.Global)
+	if !ok || g.Pkg == nil {
+		return false
+	}
+	initFn := g.Pkg.Func("init")
+	if initFn == nil {
+		return false
+	}
+	n := 0
+	for _, b := range initFn.Blocks {
+		for _, in := range b.Instrs {
+			switch x := in.(type) {
+			case *ssa.MapUpdate:
+				isG := false
+				for _, ref := range core.Referrers(x.Map) {
+					if st, ok := ref.(*ssa.Store); ok && st.Addr == ssa.Value(g) {
+						isG = true
+					}
+				}
+				if !isG {
+					continue
+				}
+				if _, ok := core.ConstString(x.Value); !ok {
+					return false
+				}
+				n++
+			}
+		}
+	}
+	// written anywhere else?
+	for _, ref := range core.Referrers(g) {
+		_ = ref
+	}
+	return n > 0
 }
